@@ -5,7 +5,7 @@ PROP = dict(
     corpus_filter=r"^c17_",
     extra=dict(kind="c17"),
     # n = scenarios (each: 150-400 blocks on a real chain.Manager, v2 contracts, 1-4 reorgs of depth 1-150)
-    quick=dict(n=24, len=14, shards=8, timeout=500),
+    quick=dict(n=96, len=14, shards=16, timeout=500),
     thorough=dict(n=640, len=18, shards=16, timeout=1700),
     nontrivial=r"^(reorg .*forked=1 .*u=R\|.*acc=\[\d|mine .*acc=\[\d+:(revision|proof|expiration):ok)", min_ops=8, min_kinds=3,
     shrink_budget=40, replay_timeout=300,
